@@ -3,6 +3,7 @@ package varmq
 // More scenario families: lifecycle, cancel, batch, saturate, pool, counts.
 
 import (
+	"strings"
 	"fmt"
 	"strconv"
 
@@ -388,6 +389,10 @@ func init() {
 				e.samples = append(e.samples, sample{now(), "idle-after-expiry", idle, min})
 			}
 			e.sampleCounts()
+			// one idle-worker reaper per run, however many Restarts there have been
+			e.samples = append(e.samples, sample{now(), "reapers-at-rest", vt.LibPendingAt(func(site int) bool {
+				return strings.HasPrefix(siteName(site), "worker.goRemoveIdleWorkers/select")
+			}), 0})
 			if c < cycles-1 && r.Intn(3) == 0 {
 				// Restart under load: every slot busy and a backlog behind; the pool of the next run
 				// is no larger than the limit
